@@ -77,7 +77,7 @@ class TypeScriptIgnoreDetector:
         directives: list[IgnoreDirective] = []
         effective_path = normalize_path(file_path)
 
-        for line_num, line in enumerate(code.splitlines(), start=1):
+        for line_num, line in enumerate(code.split("\n"), start=1):
             directives.extend(self._scan_line(line, line_num, effective_path))
 
         return directives
